@@ -396,7 +396,16 @@ func runOpCrash(c *core.Ctx, ctx context.Context, f0 *fixture, oc opCase, k int,
 	cs.calls, cs.at, cs.log = 0, k, nil
 	cs.mu.Unlock()
 	f0.cur, f0.curHook = st, cs.hook
-	opErr := oc.run(ctx, lk, f0)
+	// The process is fail-stopped at call k; whatever the dying process does afterwards
+	// (including a panic on its error path) is irrelevant: only the storage it leaves counts.
+	opErr := func() (err error) {
+		defer func() {
+			if r := recover(); r != nil {
+				err = fmt.Errorf("panic in the crashed process: %v", r)
+			}
+		}()
+		return oc.run(ctx, lk, f0)
+	}()
 	call := cs.atCall.Kind + "@" + pathClass(cs.atCall.Path)
 	w := bWitness{Op: oc.name, K: k, Call: call, Backend: st.Kind()}
 	c.Eval(fmt.Sprintf("%s|%d|%v", oc.name, k, st.Kind()), true)
